@@ -78,3 +78,63 @@ M('group_by_reverse_flush', 'C04', 'group_by completes open groups in reverse or
   'rxsci/operators/group_by.py', """                elif type(i) is rs.OnCompletedMux:
                     for k in i.store.iterate_map(state, i.key):""", """                elif type(i) is rs.OnCompletedMux:
                     for k in reversed(list(i.store.iterate_map(state, i.key))):""")
+
+# ---- C09
+M('scan_no_deepcopy', 'C09', 'scan_mux uses the seed object itself instead of a deep copy (keys share a mutable seed)',
+  'rxsci/operators/scan.py', """                        if value is rs.state.markers.STATE_NOTSET:
+                            value = seed() if callable(seed) else copy.deepcopy(seed)
+                        acc = accumulator(value, i.item)""", """                        if value is rs.state.markers.STATE_NOTSET:
+                            value = seed() if callable(seed) else seed
+                        acc = accumulator(value, i.item)""")
+M('scan_shallow_copy', 'C09', 'scan_mux copies the seed shallowly (nested mutable seeds are shared)',
+  'rxsci/operators/scan.py', """                        if value is rs.state.markers.STATE_NOTSET:
+                            value = seed() if callable(seed) else copy.deepcopy(seed)
+                        acc = accumulator(value, i.item)""", """                        if value is rs.state.markers.STATE_NOTSET:
+                            value = seed() if callable(seed) else copy.copy(seed)
+                        acc = accumulator(value, i.item)""")
+M('scan_obs_no_deepcopy', 'C09', 'scan_obs (plain) uses the seed object itself: a second subscription continues the first',
+  'rxsci/operators/scan.py', """                value = state
+                if has_state is False:
+                    value = seed() if callable(seed) else copy.deepcopy(seed)
+                state = accumulator(value, i)""", """                value = state
+                if has_state is False:
+                    value = seed() if callable(seed) else seed
+                state = accumulator(value, i)""")
+M('scan_term_empty_skipped', 'C09', 'scan_mux does not call the terminator for a key that received no item',
+  'rxsci/operators/scan.py', """                    if terminator:
+                        value = i.store.get_state(state, i.key)
+                        if value is rs.state.markers.STATE_NOTSET:
+                            value = seed() if callable(seed) else copy.deepcopy(seed)
+                        acc = terminator(value)""", """                    if terminator and i.store.get_state(state, i.key) is not rs.state.markers.STATE_NOTSET:
+                        value = i.store.get_state(state, i.key)
+                        acc = terminator(value)""")
+M('scan_factory_cached', 'C09', 'scan_mux calls a seed factory once and re-uses the object for every key',
+  'rxsci/operators/scan.py', """def scan_mux(accumulator, seed, reduce, terminator):
+    def _scan(source):""", """def scan_mux(accumulator, seed, reduce, terminator):
+    if callable(seed):
+        _cached = seed()
+        seed = lambda: _cached
+    def _scan(source):""")
+M('count_from_one', 'C09', 'count starts at 1 for keys in a re-used slot... (seed 0 replaced by stale state): count seeds with 1 when reduce',
+  'rxsci/operators/count.py', "    return scan(lambda acc, i: acc + 1, 0, reduce=reduce)", "    return scan(lambda acc, i: acc + 1, 1 if reduce else 0, reduce=reduce)")
+
+# ---- C10
+M('take_mux_off_by_one', ['C10', 'C01'], 'take_mux emits one item too many (countdown compared with >= 0)',
+  'rxsci/operators/take.py', "                    if value > 0:", "                    if value >= 0:")
+M('lag_pop_early', 'C10', 'lag(n) pops its queue one step early (lag n-1 after warm-up)',
+  'rxsci/data/lag.py', "                    if len(q) > size:", "                    if len(q) >= size and size > 2:")
+M('pad_end_first_item', 'C10', 'pad_end pads with the first item of the key instead of the last',
+  'rxsci/data/pad.py', """                if type(i) is rs.OnNextMux:
+                    i.store.set_state(state, i.key, i.item)
+                    observer.on_next(i)""", """                if type(i) is rs.OnNextMux:
+                    if i.store.get_state(state, i.key) is rs.state.markers.STATE_NOTSET:
+                        i.store.set_state(state, i.key, i.item)
+                    observer.on_next(i)""")
+M('distinct_by_repr_type', 'C10', 'distinct keys its set by (type name, value): None/0 handling unchanged but strings collide with nothing... uses id() for str',
+  'rxsci/operators/distinct.py', "                    if key not in _state:\n                        _state.add(key)", "                    if (id(key) if isinstance(key, str) and len(key) > 1 else key) not in _state:\n                        _state.add(id(key) if isinstance(key, str) and len(key) > 1 else key)")
+M('start_with_every_item', 'C10', 'start_with forgets that it already emitted the padding when the item is falsy (0 / None)',
+  'rxsci/operators/start_with.py', "                    if s is rs.state.markers.STATE_NOTSET:\n                        i.store.set_state(state, i.key, True)", "                    if s is rs.state.markers.STATE_NOTSET:\n                        i.store.set_state(state, i.key, True) if i.item else None")
+M('sort_unstable_reverse', 'C10', 'sort(reverse=True) sorts ascending then reverses (equal keys end up in reverse source order)',
+  'rxsci/data/sort.py', "rs.ops.map(lambda i: sorted(i, key=key, reverse=reverse)),", "rs.ops.map(lambda i: sorted(i, key=key)[::-1] if reverse else sorted(i, key=key)),")
+M('last_mux_keeps_state', ['C10', 'C02'], 'last_mux does not delete its state at completion and add_key keeps a stale value... emits previous lifetime last on empty key',
+  'rxsci/state/memory_store.py', "        self.state[key[0]] = rs.state.markers.STATE_NOTSET.value()\n        self.keys[key[0]] = key\n        if self.is_mapper:", "        if self.data_type != 'obj' or self.state[key[0]] == rs.state.markers.STATE_CLEARED.value():\n            self.state[key[0]] = rs.state.markers.STATE_NOTSET.value()\n        self.keys[key[0]] = key\n        if self.is_mapper:")
